@@ -698,3 +698,167 @@ Proof.
       destruct (label_eq_dec x (LoopReturn v)) as [->|N]; [right; now left|]. left.
       destruct x; inv_step H; simpl in A; try (eapply IH; eauto; fail); try congruence.
 Qed.
+
+(* --- C20: the context end stops every running server ---------------- *)
+
+Lemma conns_enabled_nil : forall hooks ctx cs off, conns_enabled hooks ctx off cs = [] ->
+  forall k c, nth_error cs k = Some c -> conn_enabled hooks ctx (off + k) c = [].
+Proof.
+  induction cs as [|x cs IH]; intros off H [|k] c E; simpl in E; try discriminate.
+  - inversion E; subst. simpl in H. apply app_eq_nil in H. rewrite Nat.add_0_r. tauto.
+  - simpl in H. apply app_eq_nil in H. destruct H as [_ H]. rewrite <- Nat.add_succ_comm. exact (IH (S off) H k c E).
+Qed.
+
+Lemma conns_enabled_in : forall hooks ctx cs off k c l, nth_error cs k = Some c ->
+  In l (conn_enabled hooks ctx (off + k) c) -> In l (conns_enabled hooks ctx off cs).
+Proof.
+  induction cs as [|x cs IH]; intros off [|k] c l E H; simpl in E; try discriminate.
+  - inversion E; subst. simpl. apply in_or_app. left. now rewrite Nat.add_0_r in H.
+  - simpl. apply in_or_app. right. rewrite <- Nat.add_succ_comm in H. exact (IH (S off) k c l E H).
+Qed.
+
+Lemma quiescent_conn : forall s k c, quiescent s = true -> get s k = Some c ->
+  conn_enabled false (ctx_done s) k c = [].
+Proof.
+  intros s k c Q G. unfold quiescent, enabled_internal, enabled in Q.
+  destruct (_ ++ _) eqn:E in Q; [|discriminate]. apply app_eq_nil in E. destruct E as [_ E].
+  exact (conns_enabled_nil _ _ _ 0 E k c G).
+Qed.
+
+Lemma ctx_stops_all : forall tr s, reach tr s -> ctx_done s = true ->
+  (* every running server has been stopped, or its watcher's Stop is enabled *)
+  (forall k c, get s k = Some c -> c_phase c = PRunning ->
+     c_stop c = true \/ (exists s', step s (StopSrv k) = Some (s', []) /\ In (StopSrv k) (enabled_internal s))) /\
+  (* a stopped server exits as soon as its handlers have returned *)
+  (forall k c, get s k = Some c -> c_phase c = PRunning -> c_stop c = true -> c_busy c = 0 ->
+     exists s', step s (SrvExit k StStopped) = Some (s', [])) /\
+  (* an accepter that honours ctx fails with a closing error, for which Loop returns nil *)
+  (acc s = Accepting -> In (AcceptErr EClosing) (enabled_internal s) /\ retv_of EClosing = RNil) /\
+  (* at quiescence: only servers with a handler still running are left, all of them stopped *)
+  (quiescent s = true ->
+     (forall k c, get s k = Some c -> is_done (c_phase c) = true \/ (c_phase c = PRunning /\ c_stop c = true /\ c_busy c > 0)) /\
+     acc s <> Accepting /\
+     ((forall k c, get s k = Some c -> c_busy c = 0) -> returned s = true)).
+Proof.
+  intros tr s R C. pose proof (reach_inv _ _ R) as I. repeat split.
+  - intros k c G P. destruct (c_stop c) eqn:S; [now left|]. right. exists (set_conn k with_stop s). split.
+    + unfold step. rewrite G, P, C, S. reflexivity.
+    + unfold enabled_internal, enabled. apply in_or_app. right.
+      apply (conns_enabled_in false (ctx_done s) (conns s) 0 k c _ G). simpl.
+      unfold conn_enabled. rewrite P, C, S. simpl. now left.
+  - intros k c G P S B. unfold step. rewrite G, P, B. simpl. rewrite S. eexists; reflexivity.
+  - unfold enabled_internal, enabled. rewrite H, C. simpl. now left.
+  - intros k c G. pose proof (quiescent_conn _ _ _ H G) as E. unfold conn_enabled in E. rewrite C in E.
+    destruct (c_phase c) eqn:P; try discriminate; auto. right.
+    destruct (c_stop c) eqn:S; simpl in E; [|discriminate].
+    destruct (c_busy c) eqn:B; [|repeat split; lia]. simpl in E. rewrite S in E. discriminate.
+  - intros A. unfold quiescent, enabled_internal, enabled in H. rewrite A, C in H. discriminate.
+  - intros NB. unfold returned. destruct (acc s) eqn:A; [| |reflexivity].
+    + unfold quiescent, enabled_internal, enabled in H. rewrite A, C in H. discriminate.
+    + assert (W : wg s = 0).
+      { rewrite (inv_wg _ _ I). unfold live.
+        assert (F : forall cs, (forall k c, nth_error cs k = Some c -> is_done (c_phase c) = true) ->
+                               filter (fun c => negb (is_done (c_phase c))) cs = []).
+        { induction cs as [|x cs IH]; intros HA; [reflexivity|]. simpl.
+          rewrite (HA 0 x eq_refl). simpl. apply IH. intros k c E. exact (HA (S k) c E). }
+        rewrite F; [reflexivity|]. intros k c G.
+        pose proof (quiescent_conn _ _ _ H G) as E. unfold conn_enabled in E. rewrite C in E.
+        specialize (NB _ _ G).
+        destruct (c_phase c) eqn:P; try discriminate; auto.
+        destruct (c_stop c) eqn:S; simpl in E; [|discriminate]. rewrite NB in E. simpl in E. rewrite S in E. discriminate. }
+      unfold quiescent, enabled_internal, enabled in H. rewrite A, W in H. discriminate.
+Qed.
+
+(* --- C20: a failing Assigner ------------------------------------------ *)
+
+Lemma assigner_failure : forall tr s k, reach tr s -> In (AssignerFail k) tr ->
+  ~ In (AssignerOk k) tr /\ ~ In (StartSrv k) tr /\ (forall st, ~ In (SrvExit k st) tr) /\ ~ In (Finish k) tr /\
+  (forall i a st, ~ In (k, i, a, st) (finish_log s)) /\
+  count_occ Nat.eq_dec (closed_conns s) k = 1 /\
+  (exists c i, get s k = Some c /\ c_svc c = Some i /\ c_asg c = None /\ c_used c = None).
+Proof.
+  intros tr s k R H. pose proof (reach_inv _ _ R) as I.
+  pose proof (in_path _ _ k _ R H eq_refl) as P. unfold path_of in P.
+  destruct (get s k) as [c|] eqn:G; [|destruct P].
+  assert (PH : c_phase c = PFailed \/ c_phase c = PDoneFail).
+  { destruct (c_phase c); simpl in P; intuition discriminate. }
+  assert (NP : forall l, life l = Some k -> In l tr -> In l (path k (c_phase c))).
+  { intros l L Hin. pose proof (in_path _ _ k _ R Hin L) as Q. unfold path_of in Q. now rewrite G in Q. }
+  repeat split.
+  - intros X. apply NP in X; [|reflexivity]. destruct PH as [E|E]; rewrite E in X; simpl in X; intuition discriminate.
+  - intros X. apply NP in X; [|reflexivity]. destruct PH as [E|E]; rewrite E in X; simpl in X; intuition discriminate.
+  - intros st X. apply NP in X; [|reflexivity]. destruct PH as [E|E]; rewrite E in X; simpl in X; intuition discriminate.
+  - intros X. apply NP in X; [|reflexivity]. destruct PH as [E|E]; rewrite E in X; simpl in X; intuition discriminate.
+  - intros i a st X. destruct (inv_flog _ _ I _ _ _ _ X) as [c0 [G0 [_ [_ P0]]]]. rewrite G in G0. inversion G0; subst.
+    destruct PH as [E|E]; rewrite E in P0; destruct P0; discriminate.
+  - rewrite (inv_closed _ _ I). unfold closes_of. rewrite G. destruct PH as [E|E]; rewrite E; reflexivity.
+  - pose proof (inv_data _ _ I _ _ G) as D. unfold data_ok in D.
+    destruct PH as [E|E]; rewrite E in D; destruct D as [[i [A B]] [C U]]; exists c, i; auto.
+Qed.
+
+Lemma no_dangling : forall tr s, reach tr s -> returned s = true ->
+  forall k, In (Accept k) tr -> count_occ Nat.eq_dec (closed_conns s) k = 1.
+Proof.
+  intros tr s R Ret k H. pose proof (reach_inv _ _ R) as I.
+  pose proof (in_path _ _ k _ R H eq_refl) as P. unfold path_of in P.
+  destruct (get s k) as [c|] eqn:G; [|destruct P].
+  pose proof (all_done_when_wg0 _ _ R (inv_ret _ _ I Ret) k c G) as D.
+  rewrite (inv_closed _ _ I). unfold closes_of. rewrite G. destruct (c_phase c); simpl in D; try discriminate; reflexivity.
+Qed.
+
+(* without the F10 fix the connection of a failing service is never closed *)
+Definition f10_witness : list label :=
+  [Accept 0; NewSvc 0; AssignerFail 0; ConnDone 0; AcceptErr EClosing; LoopReturn RNil].
+Lemma refuted_without_F10 :
+  exists s os, run (init false) f10_witness = Some (s, os) /\ returned s = true /\ In (AssignerFail 0) f10_witness /\
+               count_occ Nat.eq_dec (closed_conns s) 0 = 0.
+Proof. eexists; eexists. vm_compute. repeat split; auto. Qed.
+
+(* ------------------------------------------------------------------ *)
+(* non-vacuity: a concrete history with two connections (one served, with a call in flight when the
+   context ends; one whose Assigner fails), ending with Loop returned *)
+Definition ex_trace : list label :=
+  [Accept 0; NewSvc 0; AssignerOk 0; StartSrv 0; Accept 1; CallStart 0; CtxEnd; AcceptErr EClosing; StopSrv 0;
+   NewSvc 1; AssignerFail 1; ConnDone 1; CallEnd 0; SrvExit 0 StStopped; Finish 0; ConnDone 0; LoopReturn RNil].
+Definition ex_state : state :=
+  match run (init true) ex_trace with Some (s, _) => s | None => init true end.
+
+Example reach_nonvacuous : reach ex_trace ex_state.
+Proof. eexists. vm_compute. reflexivity. Qed.
+Example fresh_service_nonvacuous :
+  (exists c, get ex_state 0 = Some c /\ started (c_phase c) = true) /\
+  (exists tr s s' os, reach tr s /\ step s (NewSvc 1) = Some (s', os) /\ next_svc s = 1).
+Proof.
+  split; [eexists; vm_compute; split; reflexivity|].
+  exists [Accept 0; NewSvc 0; Accept 1]. eexists; eexists; eexists. split; [eexists; vm_compute; reflexivity|].
+  vm_compute. split; reflexivity.
+Qed.
+Example finish_nonvacuous :
+  returned ex_state = true /\ In (StartSrv 0) ex_trace /\
+  exists t1 t2, ex_trace = t1 ++ Finish 0 :: t2.
+Proof.
+  repeat split; [vm_compute; tauto|].
+  exists [Accept 0; NewSvc 0; AssignerOk 0; StartSrv 0; Accept 1; CallStart 0; CtxEnd; AcceptErr EClosing; StopSrv 0;
+          NewSvc 1; AssignerFail 1; ConnDone 1; CallEnd 0; SrvExit 0 StStopped], [ConnDone 0; LoopReturn RNil]. reflexivity.
+Qed.
+Example returns_last_nonvacuous :
+  exists tr s s' os, reach tr s /\ step s (LoopReturn RNil) = Some (s', os) /\ In (Accept 1) tr /\ In (StartSrv 0) tr.
+Proof.
+  exists (removelast ex_trace). eexists; eexists; eexists. split; [eexists; vm_compute; reflexivity|].
+  vm_compute. repeat split; tauto.
+Qed.
+Example returns_err_nonvacuous :
+  exists tr s s' os, reach tr s /\ step s (LoopReturn RErr) = Some (s', os).
+Proof.
+  exists [Accept 0; AcceptErr EOther; NewSvc 0; AssignerFail 0; ConnDone 0]. eexists; eexists; eexists.
+  split; [eexists; vm_compute; reflexivity|]. vm_compute. reflexivity.
+Qed.
+Example ctx_stops_all_nonvacuous :
+  exists tr s c, reach tr s /\ ctx_done s = true /\ quiescent s = true /\
+                 get s 0 = Some c /\ c_phase c = PRunning /\ acc s = Waiting EClosing.
+Proof.
+  exists [Accept 0; NewSvc 0; AssignerOk 0; StartSrv 0; CallStart 0; CtxEnd; AcceptErr EClosing; StopSrv 0].
+  eexists; eexists. split; [eexists; vm_compute; reflexivity|]. vm_compute. repeat split.
+Qed.
+Example assigner_failure_nonvacuous : reach ex_trace ex_state /\ In (AssignerFail 1) ex_trace.
+Proof. split; [exact reach_nonvacuous | vm_compute; tauto]. Qed.
